@@ -80,7 +80,7 @@ RULE = {
            "read()/readStr() equal the whole content whatever the position; read(buf) returns the item count and bytes the model predicts; size() == model length == "
            "std::filesystem::file_size with tell() unchanged; write returns the element count; Exceptions carry NotFound / NotFile; independent std::ifstream re-read. "
            "Non-trivial = content contains 0xFF or CRLF or exceeds 4096 bytes and the read phase has a size() at a non-zero position (error cases count as non-trivial). Distinct = distinct case text.",
-    "C18": "rapidcheck generates (1) directory trees (depth <=4, <=40 nodes quick / 80 thorough, plus in a tenth of the tree cases one chain of 28-50 (thorough 127) nested directories compared under the same descriptor limit, empty dirs, files of 0 B..64 KiB (2 MiB thorough), names with spaces, dots, leading dots, '...', "
+    "C18": "rapidcheck generates (1) directory trees (depth <=4, <=40 nodes quick / 80 thorough, plus in a tenth of the tree cases one chain of 28-50 (thorough 67) nested directories compared under the same descriptor limit, empty dirs, files of 0 B..64 KiB (2 MiB thorough), names with spaces, dots, leading dots, '...', "
            "UTF-8 and non-UTF-8 bytes, backslashes) built with std::filesystem in a temporary directory; (2) path strings (d from segments/separators, absolute/relative, 0-2 trailing "
            "separators; separator-free names n) and odd strings; (3) strictly nested DirectoryVisitor stacks over generated directories (existing, missing, '.', '..', relative, empty). "
            "Oracle: (1) exists/isFile/isDirectory/size/listChildren vs std::filesystem for every node (absolute, relative, trailing separator) and missing paths, three passes under a tight "
